@@ -173,7 +173,7 @@ def run(ctx):
             ctx.assume("advance audit %s -> %s: %s" % (e[0], e[1], why))
         else:
             ctx.note("R11.3a", "audited edge %s -> %s no longer occurs" % e)
-    ctx.floor("R11.3a", "lexer_loops", n_lex_loops, 6)
+    ctx.floor("R11.3a", "lexer_loops", n_lex_loops, 1)
     ctx.count("lexer_summaries", {g.short.split("::")[-1]: {k: v for k, v in adv.summary(g.id).items()} for g in lex_scope if "lex_" in g.short or "accept" in g.short or "next" in g.short})
 
     n_loops = 0
@@ -227,6 +227,6 @@ def run(ctx):
                     ctx.ok("R11.3", key, "consumes a token per cycle; end of input is tested on every cycle")
                 else:
                     ctx.violation("R11.3", key, "%s: a cycle of this loop has no step that fails or exits at end of input (advance()/next_token() are no-ops there): truncated input can loop forever" % f.short, b.site(header))
-    ctx.floor("R11.3", "reader_loops", n_loops, 10)
+    ctx.floor("R11.3", "reader_loops", n_loops, 4)
     ctx.count("eof_failing_functions", len(eof_fail))
     ctx.assume("linear time is decided only as per-iteration progress; std iterators are finite")
